@@ -13,6 +13,7 @@ import (
 type RaftInv struct {
 	LeaderOf   map[int]int       // term -> the server seen as leader in it
 	Committed  map[int]tla.Value // index -> entry, fixed when first committed anywhere
+	CommitTerm map[int]int       // index -> term of the server on which it was first seen committed (the committing leader's term)
 	prevLog    map[int]tla.Value
 	prevLeader map[int]bool
 	prevTerm   map[int]int
@@ -22,7 +23,7 @@ type RaftInv struct {
 }
 
 func NewRaftInv() *RaftInv {
-	return &RaftInv{LeaderOf: map[int]int{}, Committed: map[int]tla.Value{}, prevLog: map[int]tla.Value{}, prevLeader: map[int]bool{}, prevTerm: map[int]int{}}
+	return &RaftInv{LeaderOf: map[int]int{}, Committed: map[int]tla.Value{}, CommitTerm: map[int]int{}, prevLog: map[int]tla.Value{}, prevLeader: map[int]bool{}, prevTerm: map[int]int{}}
 }
 
 type srvView struct {
@@ -95,6 +96,7 @@ func (iv *RaftInv) Check(r *Raft) string {
 				}
 			} else {
 				iv.Committed[k] = e
+				iv.CommitTerm[k] = v.term
 			}
 		}
 	}
@@ -135,11 +137,13 @@ func (iv *RaftInv) Check(r *Raft) string {
 					return fmt.Sprintf("ApplyLogOK: servers %d and %d have commitIndex %d but stores %v / %v", i, j, a.commitIndex, a.sm, b.sm)
 				}
 			}
-			// LeaderCompleteness
+			// LeaderCompleteness, as the property states it: an entry committed in a term is in the log of every leader of
+			// that or a later term. (raftkvs.tla compares with the term in which the entry was CREATED, which a stale
+			// leader elected before the entry was committed legitimately violates; that stronger form is not checked.)
 			if b.state == "leader" {
 				for k := 1; k <= a.commitIndex; k++ {
 					e := entryAt(a.log, k)
-					if b.term >= termOf(e) && (k > b.n || !entryAt(b.log, k).Equal(e)) {
+					if b.term >= iv.CommitTerm[k] && (k > b.n || !entryAt(b.log, k).Equal(e)) {
 						return fmt.Sprintf("LeaderCompleteness: entry %v committed at index %d on server %d is missing from leader %d of term %d", e, k, i, j, b.term)
 					}
 				}
@@ -152,7 +156,7 @@ func (iv *RaftInv) Check(r *Raft) string {
 			continue
 		}
 		for k, e := range iv.Committed {
-			if vs[s].term >= termOf(e) && (k > vs[s].n || !entryAt(vs[s].log, k).Equal(e)) {
+			if vs[s].term >= iv.CommitTerm[k] && (k > vs[s].n || !entryAt(vs[s].log, k).Equal(e)) {
 				return fmt.Sprintf("LeaderCompleteness: entry %v, once committed at index %d, is missing from leader %d of term %d", e, k, s, vs[s].term)
 			}
 		}
